@@ -5,7 +5,7 @@ Local Open Scope N_scope.
 
 (* ------------------------------------------------------------------ fixed length *)
 Lemma fixed_bufread_all_valid : forall amts r acc d rest,
-  take_n (f_remaining r) (src_rest (f_src r)) = Some (d, rest) ->
+  take_n (f_remaining r) (reach (f_src r)) = Some (d, rest) ->
   Forall (fun k => 0 < k) amts -> (length d < length amts)%nat ->
   fst (bufread_all (BFixed r) amts acc) = (acc ++ d, AtEof).
 Proof.
@@ -30,7 +30,7 @@ Proof.
       cbn [body_consume]. unfold fixed_consume. cbn [f_src f_remaining].
       destruct (consume_prefix (fill_buf (f_src r)) got t P4) as [C1 C2].
       rewrite F1 in C1. rewrite C1, take_n_app in Ht by exact P3.
-      destruct (take_n (f_remaining r - lenN got) (src_rest (consume (lenN got) (fill_buf (f_src r)))))
+      destruct (take_n (f_remaining r - lenN got) (reach (consume (lenN got) (fill_buf (f_src r)))))
         as [[d' a']|] eqn:Et; [|discriminate].
       inversion Ht. subst d a'.
       rewrite (IH _ (acc ++ got) d' rest).
@@ -48,12 +48,12 @@ Lemma fixed_bufread_valid : forall lo st amts n p rest,
 Proof.
   intros lo st amts n p rest Hs Hpos Hlen. unfold spec_fixed in Hs.
   destruct (take_n n (lo ++ concat st)) as [[d a]|] eqn:Et; [|discriminate]. inversion Hs. subst d a.
-  unfold new_fixed. rewrite (fixed_bufread_all_valid amts _ [] p rest); [reflexivity| |exact Hpos|exact Hlen].
-  cbn [f_remaining f_src]. rewrite src_rest_mk. exact Et.
+  unfold new_fixed. rewrite (fixed_bufread_all_valid amts _ [] p []); [reflexivity| |exact Hpos|exact Hlen].
+  cbn [f_remaining f_src]. rewrite reach_mk_take. exact (take_n_firstnN _ _ _ _ Et).
 Qed.
 
 Lemma fixed_bufread_all_invalid : forall amts r acc,
-  lenN (src_rest (f_src r)) < f_remaining r -> Forall (fun k => 0 < k) amts ->
+  lenN (reach (f_src r)) < f_remaining r -> Forall (fun k => 0 < k) amts ->
   snd (fst (bufread_all (BFixed r) amts acc)) <> AtEof.
 Proof.
   induction amts as [|a amts IH]; intros r acc Hlt Hpos; [cbn; discriminate|].
@@ -84,7 +84,8 @@ Proof.
   intros lo st amts n w Hs Hpos. unfold spec_fixed in Hs.
   destruct (take_n n (lo ++ concat st)) as [[d a]|] eqn:Et; [discriminate|].
   apply take_n_none in Et. unfold new_fixed. apply fixed_bufread_all_invalid; [|exact Hpos].
-  cbn [f_remaining f_src]. rewrite src_rest_mk. exact Et.
+  cbn [f_remaining f_src]. rewrite reach_mk_take.
+  pose proof (lenN_firstnN_le_len n (lo ++ concat st)) as Hle. lia.
 Qed.
 
 (* ------------------------------------------------------------------ chunked *)
